@@ -37,7 +37,8 @@ def enumerate_graphs(tier):
     out = []
     base5 = ["-", "T", "T!", "[T]", "[T!]!"]
     singles = [[k] for k in base5 if k != "-"]
-    doubles = [[a, b] for a, b in itertools.combinations_with_replacement([k for k in base5 if k != "-"], 2)]
+    # two fields on one ordered pair, in both declaration orders (the generator walks fields in order)
+    doubles = [[a, b] for a, b in itertools.product([k for k in base5 if k != "-"], repeat=2)]
     # n = 1: none / one / two self edges
     for opt in [[]] + singles + doubles:
         for oo in (False, True):
@@ -53,7 +54,7 @@ def enumerate_graphs(tier):
             out.append((2, {(0, 1): dbl, (0, 0): [ks[0]] if ks[0] != "-" else [], (1, 0): [ks[1]] if ks[1] != "-" else [],
                             (1, 1): [ks[2]] if ks[2] != "-" else []}, (False, False)))
     # n = 3
-    kinds3 = ["-", "T", "T!"] if tier == "quick" else ["-", "T", "T!", "[T!]"]
+    kinds3 = ["-", "T", "[T!]"] if tier == "quick" else ["-", "T", "T!", "[T!]"]
     pairs3 = [(i, j) for i in range(3) for j in range(3)]
     for ks in itertools.product(kinds3, repeat=9):
         out.append((3, {p: ([k] if k != "-" else []) for p, k in zip(pairs3, ks)}, (False, False, False)))
@@ -369,7 +370,7 @@ def run(tier):
                 "(%s per ordered pair, all 9 pairs), n = 4 rings and rings with a chord; plus %d fragment recursion patterns. "
                 "non-trivial = graphs with a cycle that avoids list edges. Conformance = compiled subset (all n = 1, n = 2 single-edge "
                 "graphs of the tier, n = 4 sample, all fragment patterns) and their Box-stripped twins compared with rustc's E0072 "
-                "verdict" % ("{none, T, T!}" if tier == "quick" else "{none, T, T!, [T!]}", len(pats)),
+                "verdict" % ("{none, T, [T!]}" if tier == "quick" else "{none, T, T!, [T!]}", len(pats)),
         "graphs": len(graphs), "graphs_with_value_cycle": cyclic_graphs, "graphs_with_box_emitted": boxed,
         "compiled": len(compiled), "model_and_rustc_agree_infinite": agree_inf, "value_roundtrips": len(vreqs),
         "exhaustive": True,
